@@ -1,4 +1,499 @@
+/-
+  C13 — slicing a range query is invisible in its result.
+  Proved here: the pairwise behaviour of `Overlaps` on the class of ranges that slices produce
+  (adjacent ⇒ hull in both argument orders, separated ⇒ no merge in both orders, any merge is the
+  hull of two connected ranges), the per-slice folding of samples into maximal runs, and the slice
+  plan facts. The order-independence of the `MergeRanges` fixpoint over whole lists is NOT proved
+  (see `C13_statement` and DESIGN.md); it is covered by the correspondence and end-to-end runs.
+-/
 import PintModel.Model.Range
+import PintModel.Spec.Presence
+set_option linter.unusedSimpArgs false
 namespace Pint.Props.C13
-theorem placeholder : True := trivial
+open Pint.Range Pint.Spec.Presence
+
+/-- two ranges of one series are *adjacent*: the second starts one second after the first ends
+    (what a run crossing a slice boundary looks like after `ExpandRangesEnd`) -/
+def Adjacent (a b : MTR) : Prop := a.fp = b.fp ∧ a.s ≤ a.e ∧ b.s ≤ b.e ∧ b.s = a.e + 1
+/-- two ranges of one series are *separated*: more than a step lies between them (a missing sample) -/
+def Separated (a b : MTR) (step : Int) : Prop := a.s ≤ a.e ∧ b.s ≤ b.e ∧ a.e + step < b.s
+
+theorem iabs_le (x k : Int) : iabs x ≤ k ↔ (-k ≤ x ∧ x ≤ k) := by
+  unfold iabs; split <;> omega
+
+/-- consecutive samples merge across a slice boundary: adjacent ranges merge into their hull,
+    whichever of the two arrived first -/
+theorem overlaps_adjacent (a b : MTR) (step : Int) (hs : 1 ≤ step) (h : Adjacent a b) :
+    overlaps a b step = some ⟨a.s, b.e⟩ ∧ overlaps b a step = some ⟨a.s, b.e⟩ := by
+  obtain ⟨hfp, ha, hb, hab⟩ := h
+  constructor
+  · unfold overlaps
+    simp only [hfp, ne_eq, not_true_eq_false, if_false, iabs_le]
+    split
+    · rename_i h1
+      have m1 : min a.s b.s = a.s := by omega
+      have m2 : max a.e b.e = b.e := by omega
+      rw [m1, m2]
+    · split
+      · rfl
+      · split
+        · omega
+        · split
+          · rfl
+          · rename_i h4
+            exfalso; apply h4; omega
+  · unfold overlaps
+    simp only [hfp, ne_eq, not_true_eq_false, if_false, iabs_le]
+    split
+    · rename_i h1
+      have m1 : min b.s a.s = a.s := by omega
+      have m2 : max b.e a.e = b.e := by omega
+      rw [m1, m2]
+    · split
+      · omega
+      · split
+        · omega
+        · split
+          · omega
+          · split
+            · rfl
+            · rename_i h5
+              exfalso; apply h5; omega
+
+/-- a single missing sample always produces a gap: separated ranges are never merged, in either order -/
+theorem overlaps_separated (a b : MTR) (step : Int) (hs : 0 ≤ step) (h : Separated a b step) :
+    overlaps a b step = none ∧ overlaps b a step = none := by
+  obtain ⟨ha, hb, hab⟩ := h
+  constructor <;>
+  · unfold overlaps
+    simp only [iabs_le]
+    repeat' split
+    all_goals first | rfl | (exfalso; omega)
+
+/-- whenever `Overlaps` merges, the result is exactly the hull of the two ranges and the two ranges
+    are connected (overlapping, or at most `step` apart): merging never bridges a gap of more than a
+    step and never invents or loses coverage -/
+theorem overlaps_some_is_hull (a b : MTR) (step : Int) (hs : 0 ≤ step) (ha : a.s ≤ a.e) (hb : b.s ≤ b.e) (c : TR)
+    (h : overlaps a b step = some c) :
+    c.s = min a.s b.s ∧ c.e = max a.e b.e ∧ a.s ≤ b.e + step ∧ b.s ≤ a.e + step := by
+  unfold overlaps at h
+  simp only [iabs_le] at h
+  repeat' split at h
+  all_goals first
+    | (cases h; done)
+    | (cases h; (try dsimp only); refine ⟨by omega, by omega, by omega, by omega⟩)
+
+/-! ### per-slice folding of samples into ranges -/
+
+def mk (fp : Nat) (p : Int × Int) : MTR := ⟨fp, p.1, p.2⟩
+def render (fp : Nat) (acc : List (Int × Int)) : List MTR := acc.reverse.map (mk fp)
+
+/-- earlier ranges that ended more than a step before `t` are skipped by `appendSample` -/
+theorem appendSample_skip (step : Int) (fp : Nat) (t : Int) (init rest : List MTR)
+    (h : ∀ r ∈ init, r.fp = fp → r.e + step < t ∧ r.s < t) :
+    appendSample step fp t (init ++ rest) = init ++ appendSample step fp t rest := by
+  induction init with
+  | nil => rfl
+  | cons r init ih =>
+    have hr := h r (by simp)
+    have ih' := ih (fun x hx => h x (by simp [hx]))
+    simp only [List.cons_append, appendSample]
+    by_cases hfp : r.fp = fp
+    · obtain ⟨h1, h2⟩ := hr hfp
+      have c1 : ¬ (r.s - step ≤ t ∧ t ≤ r.s) := by omega
+      have c2 : ¬ (r.s ≤ t ∧ t ≤ r.e + step) := by omega
+      simp [hfp, c1, c2, ih']
+    · simp [hfp, ih']
+
+/-- the last range either takes the sample (at most a step later) or a new range is opened -/
+theorem appendSample_last (step : Int) (fp : Nat) (t a b : Int) (hab : a ≤ b) (hbt : b < t) :
+    appendSample step fp t [⟨fp, a, b⟩] =
+      if t ≤ b + step then [⟨fp, a, t⟩] else [⟨fp, a, b⟩, ⟨fp, t, t⟩] := by
+  have c1 : ¬ (a - step ≤ t ∧ t ≤ a) := by omega
+  simp only [appendSample, ne_eq, not_true_eq_false, if_false, c1]
+  by_cases h : t ≤ b + step
+  · have : a ≤ t ∧ t ≤ b + step := ⟨by omega, h⟩
+    simp [this, h]
+  · have : ¬ (a ≤ t ∧ t ≤ b + step) := by omega
+    simp [this, h]
+
+/-- invariant of the fold: runs are well-formed and every older run ended more than a step before the
+    current one started -/
+def Inv (step : Int) : List (Int × Int) → Prop
+  | [] => True
+  | (a, b) :: rest => a ≤ b ∧ ∀ r ∈ rest, r.1 ≤ r.2 ∧ r.2 + step < a
+
+theorem inv_addRun (step : Int) (hs : 0 ≤ step) (acc : List (Int × Int)) (t : Int) (hi : Inv step acc)
+    (ht : ∀ a b rest, acc = (a, b) :: rest → b < t) : Inv step (addRun step acc t) := by
+  cases acc with
+  | nil => simp [addRun, Inv]
+  | cons p rest =>
+    obtain ⟨a, b⟩ := p
+    obtain ⟨hab, hrest⟩ := hi
+    have hbt := ht a b rest rfl
+    simp only [addRun]
+    split
+    · exact ⟨by omega, hrest⟩
+    · refine ⟨by omega, ?_⟩
+      intro r hr
+      cases List.mem_cons.1 hr with
+      | inl h => subst h; exact ⟨hab, by omega⟩
+      | inr h => have := hrest r h; exact ⟨this.1, by omega⟩
+
+/-- one sample: the code's step on the rendered ranges is the spec's step on the runs -/
+theorem appendSample_render (step : Int) (hs : 0 ≤ step) (fp : Nat) (acc : List (Int × Int)) (t : Int)
+    (hi : Inv step acc) (ht : ∀ a b rest, acc = (a, b) :: rest → b < t) :
+    appendSample step fp t (render fp acc) = render fp (addRun step acc t) := by
+  cases acc with
+  | nil => simp [render, addRun, appendSample, mk]
+  | cons p rest =>
+    obtain ⟨a, b⟩ := p
+    obtain ⟨hab, hrest⟩ := hi
+    have hbt := ht a b rest rfl
+    have hskip := appendSample_skip step fp t (rest.reverse.map (mk fp)) [⟨fp, a, b⟩] (by
+      intro r hr _
+      simp only [List.mem_map, List.mem_reverse] at hr
+      obtain ⟨q, hq, rfl⟩ := hr
+      have := hrest q hq
+      simp only [mk]
+      omega)
+    have hlast := appendSample_last step fp t a b hab hbt
+    simp only [render, List.reverse_cons, List.map_append, List.map_cons, List.map_nil, mk] at *
+    rw [hskip, hlast]
+    simp only [addRun]
+    split <;> simp [mk]
+
+/-- per slice, samples arriving in ascending order are folded into exactly the maximal runs of
+    samples at most a step apart (`AppendSampleToRanges` = `Spec.Presence.runs`), for any number of
+    samples and any gaps -/
+theorem append_is_runs_from (step : Int) (hs : 0 ≤ step) (fp : Nat) (ts : List Int) :
+    ∀ (acc : List (Int × Int)), Inv step acc →
+      (∀ a b rest, acc = (a, b) :: rest → Asc b ts) → (acc = [] → ∃ lo, Asc lo ts) →
+      appendSamples step fp ts (render fp acc) = render fp (ts.foldl (addRun step) acc) := by
+  induction ts with
+  | nil => intro acc _ _ _; simp [appendSamples]
+  | cons t ts ih =>
+    intro acc hi hasc hnil
+    have ht : ∀ a b rest, acc = (a, b) :: rest → b < t := fun a b rest h => (hasc a b rest h).1
+    simp only [appendSamples, List.foldl_cons]
+    rw [appendSample_render step hs fp acc t hi ht]
+    have hi' := inv_addRun step hs acc t hi ht
+    have hasc' : ∀ a b rest, addRun step acc t = (a, b) :: rest → Asc b ts := by
+      intro a b rest h
+      have htail : Asc t ts := by
+        cases acc with
+        | nil => obtain ⟨lo, hlo⟩ := hnil rfl; exact hlo.2
+        | cons p r => obtain ⟨a0, b0⟩ := p; exact (hasc a0 b0 r rfl).2
+      cases acc with
+      | nil => simp only [addRun, List.cons.injEq, Prod.mk.injEq] at h; obtain ⟨⟨_, hb⟩, _⟩ := h; subst hb; exact htail
+      | cons p r =>
+        obtain ⟨a0, b0⟩ := p
+        simp only [addRun] at h
+        split at h
+        · simp only [List.cons.injEq, Prod.mk.injEq] at h; obtain ⟨⟨_, hb⟩, _⟩ := h; subst hb; exact htail
+        · simp only [List.cons.injEq, Prod.mk.injEq] at h; obtain ⟨⟨_, hb⟩, _⟩ := h; subst hb; exact htail
+    have := ih (addRun step acc t) hi' hasc' (by
+      intro h
+      cases acc with
+      | nil => simp [addRun] at h
+      | cons p r => obtain ⟨a0, b0⟩ := p; simp only [addRun] at h; split at h <;> simp at h)
+    simpa [appendSamples] using this
+
+theorem append_is_runs (step : Int) (hs : 0 ≤ step) (fp : Nat) (lo : Int) (ts : List Int) (h : Asc lo ts) :
+    appendSamples step fp ts [] = (runs step ts).map (mk fp) := by
+  have := append_is_runs_from step hs fp ts [] (by simp [Inv]) (by intro a b rest h; cases h) (fun _ => ⟨lo, h⟩)
+  simpa [render, runs] using this
+
+/-! ### the slice plan -/
+
+/-- consecutive slices: each starts one second after the previous one ends -/
+def Contig : List TR → Prop
+  | [] => True
+  | [_] => True
+  | x :: y :: r => y.s = x.e + 1 ∧ Contig (y :: r)
+
+/-- untrimmed slices: each starts where the previous one ends, `size` after its own start -/
+def ChainFrom (size : Int) : Int → List TR → Prop
+  | _, [] => True
+  | k, [x] => x.s = k
+  | k, x :: y :: r => x.s = k ∧ x.e = k + size ∧ ChainFrom size (k + size) (y :: r)
+
+theorem sliceLoop_chain (size end_ : Int) (fuel : Nat) (k : Int) : ChainFrom size k (sliceLoop fuel k end_ size) := by
+  induction fuel generalizing k with
+  | zero => simp [sliceLoop, ChainFrom]
+  | succ f ih =>
+    simp only [sliceLoop]
+    split
+    · have ihk := ih (k + size)
+      cases hrest : sliceLoop f (k + size) end_ size with
+      | nil => simp [ChainFrom]
+      | cons y r =>
+        rw [hrest] at ihk
+        refine ⟨rfl, ?_, ihk⟩
+        -- the next iteration ran, so k + size < end_ and this slice was not clipped
+        cases f with
+        | zero => simp [sliceLoop] at hrest
+        | succ f' =>
+          simp only [sliceLoop] at hrest
+          split at hrest
+          · rename_i hlt; simp only []; split <;> omega
+          · cases hrest
+    · simp [ChainFrom]
+
+theorem trimEnds_contig (size : Int) (k : Int) (l : List TR) (h : ChainFrom size k l) : Contig (trimEnds l) := by
+  induction l generalizing k with
+  | nil => simp [trimEnds, Contig]
+  | cons x rest ih =>
+    cases rest with
+    | nil => simp [trimEnds, Contig]
+    | cons y r =>
+      obtain ⟨hx, hxe, hrest⟩ := h
+      have ihr := ih (k + size) hrest
+      have hy : y.s = k + size := by
+        cases r with
+        | nil => exact hrest
+        | cons z r' => exact hrest.1
+      cases r with
+      | nil => simp only [trimEnds, Contig]; exact ⟨by omega, trivial⟩
+      | cons z r' =>
+        simp only [trimEnds] at ihr ⊢
+        refine ⟨by (try dsimp only); omega, ihr⟩
+
+/-- the slices `sliceRange` produces are consecutive with one-second seams, for every start, end,
+    resolution and slice size (whenever it terminates) -/
+theorem slices_contiguous (start end_ res size : Int) (l : List TR)
+    (h : sliceRange start end_ res size = some l) : Contig l := by
+  unfold sliceRange at h
+  split at h
+  · cases h; simp [Contig]
+  · split at h
+    · cases h
+    · rename_i hres hsize
+      simp only [Option.some.injEq] at h
+      subst h
+      by_cases hr : roundTime start size > start
+      · simp only [hr, if_true]
+        apply trimEnds_contig size (roundTime start size - size)
+        have hc := sliceLoop_chain size end_ ((end_ - roundTime start size) / size + 2).toNat (roundTime start size)
+        cases hl : sliceLoop ((end_ - roundTime start size) / size + 2).toNat (roundTime start size) end_ size with
+        | nil => simp [ChainFrom]
+        | cons y r =>
+          rw [hl] at hc
+          have hy : y.s = roundTime start size := by
+            cases r with
+            | nil => exact hc
+            | cons z r' => exact hc.1
+          -- the loop ran at least once, so rstart < end_ and the first slice was not clipped
+          have hlt : roundTime start size < end_ := by
+            cases hf : ((end_ - roundTime start size) / size + 2).toNat with
+            | zero => rw [hf] at hl; simp [sliceLoop] at hl
+            | succ f =>
+              rw [hf] at hl
+              simp only [sliceLoop] at hl
+              split at hl
+              · assumption
+              · cases hl
+          refine ⟨rfl, ?_, ?_⟩
+          · simp only []; split <;> omega
+          · have : roundTime start size - size + size = roundTime start size := by omega
+            rw [this]; exact hc
+      · simp only [hr, if_false, List.nil_append]
+        exact trimEnds_contig size _ _ (sliceLoop_chain size end_ _ _)
+
+theorem sliceLoop_last (size end_ : Int) (hsz : 0 < size) (fuel : Nat) (k : Int) (hk : k < end_)
+    (hf : end_ - k ≤ fuel * size) :
+    ((sliceLoop fuel k end_ size).getLast?).map (·.e) = some end_ := by
+  induction fuel generalizing k with
+  | zero => simp at hf; omega
+  | succ f ih =>
+    simp only [sliceLoop, hk, if_true]
+    by_cases hnext : k + size < end_
+    · have hf' : end_ - (k + size) ≤ f * size := by
+        have : ((f + 1 : Nat) : Int) * size = f * size + size := by
+          rw [Int.natCast_add]; simp [Int.add_mul]
+        omega
+      have := ih (k + size) hnext hf'
+      cases hl : sliceLoop f (k + size) end_ size with
+      | nil => rw [hl] at this; simp at this
+      | cons y r =>
+        rw [hl] at this
+        simpa [List.getLast?_cons_cons] using this
+    · have hnil : sliceLoop f (k + size) end_ size = [] := by
+        cases f with
+        | zero => rfl
+        | succ f' => simp [sliceLoop, hnext]
+      rw [hnil]
+      simp only [List.getLast?_singleton, Option.map_some, Option.some.injEq]
+      split <;> omega
+
+theorem trimEnds_last (l : List TR) : ((trimEnds l).getLast?).map (·.e) = (l.getLast?).map (·.e) := by
+  induction l with
+  | nil => rfl
+  | cons x rest ih =>
+    cases rest with
+    | nil => rfl
+    | cons y r =>
+      simp only [trimEnds]
+      cases hr : trimEnds (y :: r) with
+      | nil => cases r <;> simp [trimEnds] at hr
+      | cons z r' =>
+        rw [hr] at ih
+        simpa [List.getLast?_cons_cons] using ih
+
+/-- the last slice ends exactly at `end`: the plan reaches the end of the requested range -/
+theorem slices_reach_end (start end_ res size : Int) (hres : 0 ≤ res) (l : List TR)
+    (h : sliceRange start end_ res size = some l) : (l.getLast?).map (·.e) = some end_ := by
+  unfold sliceRange at h
+  split at h
+  · cases h; rfl
+  · split at h
+    · cases h
+    · rename_i hgap hsize
+      have hsz : 0 < size := by omega
+      simp only [Option.some.injEq] at h
+      subst h
+      rw [trimEnds_last]
+      by_cases hlt : roundTime start size < end_
+      · -- the loop runs; its last slice ends at end_
+        have hfuel : end_ - roundTime start size ≤ (((end_ - roundTime start size) / size + 2).toNat : Int) * size := by
+          have hq := Int.mul_ediv_add_emod (end_ - roundTime start size) size
+          have hm := Int.emod_lt_of_pos (end_ - roundTime start size) hsz
+          have hm0 := Int.emod_nonneg (end_ - roundTime start size) (by omega : size ≠ 0)
+          have hqn : 0 ≤ (end_ - roundTime start size) / size := Int.ediv_nonneg (by omega) (by omega)
+          have : (((end_ - roundTime start size) / size + 2).toNat : Int) = (end_ - roundTime start size) / size + 2 := by
+            rw [Int.toNat_of_nonneg]; omega
+          rw [this, Int.add_mul]
+          have : size * ((end_ - roundTime start size) / size) = (end_ - roundTime start size) / size * size := Int.mul_comm _ _
+          omega
+        have hlast := sliceLoop_last size end_ hsz _ (roundTime start size) hlt hfuel
+        cases hl : sliceLoop ((end_ - roundTime start size) / size + 2).toNat (roundTime start size) end_ size with
+        | nil => rw [hl] at hlast; simp at hlast
+        | cons y r =>
+          rw [hl] at hlast
+          rw [List.getLast?_append]
+          cases hg : (y :: r).getLast? with
+          | none => rw [hg] at hlast; simp at hlast
+          | some z => rw [hg] at hlast; simpa using hlast
+      · -- the loop does not run: only the first (clipped) slice exists
+        have hnil : sliceLoop ((end_ - roundTime start size) / size + 2).toNat (roundTime start size) end_ size = [] := by
+          cases ((end_ - roundTime start size) / size + 2).toNat with
+          | zero => rfl
+          | succ f => simp [sliceLoop, hlt]
+        rw [hnil, List.append_nil]
+        have hr : roundTime start size > start := by omega
+        simp only [hr, if_true, List.getLast?_singleton, Option.map_some, Option.some.injEq]
+        split <;> omega
+
+/-- `(2h).Round(step)` is zero exactly when the step exceeds four hours (the reason `RangeQuery`
+    falls back to the step itself as slice size) -/
+theorem slice_size_zero_iff (step : Int) (hs : 0 < step) : roundDur 7200 step = 0 ↔ 14400 < step := by
+  unfold roundDur
+  have h0 : ¬ step ≤ 0 := by omega
+  simp only [h0, if_false]
+  have hmod := Int.emod_lt_of_pos 7200 hs
+  have hmod0 := Int.emod_nonneg 7200 (by omega : step ≠ 0)
+  by_cases hbig : 7200 < step
+  · have he : (7200 : Int) % step = 7200 := Int.emod_eq_of_lt (by omega) hbig
+    rw [he]
+    split <;> omega
+  · split <;> omega
+
+/-- the slice size `RangeQuery` uses is positive for every positive step, so slicing terminates -/
+theorem sliceSize_pos (step : Int) (hs : 0 < step) : 0 < sliceSize step := by
+  unfold sliceSize
+  simp only []
+  split
+  · exact hs
+  · omega
+
+/-- slicing always terminates with a plan: `plan` never answers `none` for a positive step -/
+theorem plan_terminates (start end_ lookback step : Int) (hs : 0 < step) :
+    ∃ l, plan start end_ lookback step = some l := by
+  unfold plan
+  simp only []
+  split
+  · exact ⟨_, rfl⟩
+  · unfold sliceRange
+    have := sliceSize_pos step hs
+    split
+    · exact ⟨_, rfl⟩
+    · have h0 : ¬ sliceSize step ≤ 0 := by omega
+      simp only [h0, if_false]
+      exact ⟨_, rfl⟩
+
+theorem sliceRange_none_of_zero (start end_ res : Int) (h : res < end_ - start) :
+    sliceRange start end_ res 0 = none := by
+  unfold sliceRange
+  have : ¬ end_ - start ≤ res := by omega
+  simp [this]
+
+/-- the slice size pint chooses is a whole number of steps, so the per-slice sample grids line up
+    into one global grid -/
+theorem slice_size_multiple_of_step (step : Int) (hs : 0 < step) : sliceSize step % step = 0 := by
+  unfold sliceSize
+  simp only []
+  split
+  · exact Int.emod_self
+  unfold roundDur
+  have h0 : ¬ step ≤ 0 := by omega
+  simp only [h0, if_false]
+  split
+  · rw [Int.sub_emod, Int.emod_emod_of_dvd _ (Int.dvd_refl step)]; simp
+  · have : (7200 + step - 7200 % step) = step + (7200 - 7200 % step) := by omega
+    rw [this, Int.add_emod, Int.emod_self, Int.sub_emod, Int.emod_emod_of_dvd _ (Int.dvd_refl step)]; simp
+
+/-! ### two ranges through the whole merge (either arrival order) -/
+
+theorem mergeRec_single (step : Int) (f : Nat) (x : MTR) : mergeRec step f [x] = ([x], false) := by
+  cases f with
+  | zero => simp [mergeRec]
+  | succ f => simp [mergeRec, mergePass, absorb]
+
+/-- a run that crosses a slice boundary comes back as ONE range, whichever slice answered first -/
+theorem merge_two_adjacent (a b : MTR) (step : Int) (hs : 1 ≤ step) (h : Adjacent a b) :
+    mergeSeries step [a, b] = [⟨a.fp, a.s, b.e⟩] ∧ mergeSeries step [b, a] = [⟨a.fp, a.s, b.e⟩] := by
+  obtain ⟨h1, h2⟩ := overlaps_adjacent a b step hs h
+  have hfp := h.1
+  constructor
+  · simp [mergeSeries, mergeRec, mergePass, absorb, h1, mergeLoop, mergeRec_single, sortByStart, insertSorted]
+  · simp [mergeSeries, mergeRec, mergePass, absorb, h2, mergeLoop, mergeRec_single, sortByStart, insertSorted, hfp]
+
+/-- a missing sample keeps two ranges apart, whichever slice answered first; the result is sorted -/
+theorem merge_two_separated (a b : MTR) (step : Int) (hs : 0 ≤ step) (h : Separated a b step) :
+    mergeSeries step [a, b] = [a, b] ∧ mergeSeries step [b, a] = [a, b] := by
+  obtain ⟨h1, h2⟩ := overlaps_separated a b step hs h
+  obtain ⟨ha, hb, hab⟩ := h
+  have hlt : ¬ b.s ≤ a.s := by omega
+  have hle : a.s ≤ b.s := by omega
+  constructor
+  · simp [mergeSeries, mergeRec, mergePass, absorb, h1, sortByStart, insertSorted, hle]
+  · simp [mergeSeries, mergeRec, mergePass, absorb, h2, sortByStart, insertSorted, hlt]
+
+/-! ### the full statement (NOT proved: order-independence of the MergeRanges fixpoint over whole lists) -/
+
+/-- sample instants of one slice `[s, e]` on its own grid -/
+def gridSamples (present : Int → Bool) (s e step : Int) : List Int :=
+  (List.range ((e - s) / step + 1).toNat).filterMap fun (k : Nat) =>
+    let t : Int := s + (k : Int) * step
+    if present t then some t else none
+
+/-- what one slice answers for one series, after `ExpandRangesEnd` -/
+def sliceRanges (step : Int) (fp : Nat) (present : Int → Bool) (sl : TR) : List MTR :=
+  expandEnds step (appendSamples step fp (gridSamples present sl.s sl.e step) [])
+
+/-- C13 at full strength: for every start/end/step (step ≥ 1s), every presence pattern and every
+    arrival order of the slice answers, merging gives exactly the runs of one unsliced evaluation on
+    the same grid. -/
+def C13_statement : Prop :=
+  ∀ (start end_ lookback step : Int) (fp : Nat) (present : Int → Bool) (slices arrival : List TR),
+    1 ≤ step → start ≤ end_ →
+    plan start end_ lookback step = some slices → arrival.Perm slices →
+    mergeSeries step (arrival.flatMap (sliceRanges step fp present)) =
+      expandEnds step ((runs step (gridSamples present (slices.headD ⟨start, end_⟩).s end_ step)).map (mk fp))
+
+/-- non-vacuity / sanity: a gap of two steps splits, one step does not -/
+theorem runs_demo : runs 60 [0, 60, 120, 240, 300] = [(0, 120), (240, 300)] ∧ Asc (-1) [0, 60, 120, 240, 300] := by
+  refine ⟨by decide, ?_⟩
+  simp [Asc]
+
 end Pint.Props.C13
